@@ -94,6 +94,11 @@ def run(tier):
                    bounds='all op-type sequences of length 1..4 over 6 op types (1554 sequences), recording op builders',
                    functions=['db/common.py BaseEvolutionOperations.generate_table_ops_sql, generate_table_op_sql, _are_ops_mergeable, mergeable_ops']),
     ]
+    obs.append(Obligation('one_rebuild', 'harness/c18.py', 'h_one_rebuild', timeout=600,
+                          partitions=[[a, b] for a in range(6) for b in range(6)],
+                          what='real AppMutator/ModelMutator/SQLite evolver: any sequence of 2-3 mergeable mutations (AddField, ChangeField attrs, ChangeField null, DeleteField, ChangeMeta unique_together/index_together) over two models, however interleaved, rebuilds each table at most once',
+                          bounds='6 mutation kinds x 2 models, sequences of length 2-3 with each (kind, model) at most once',
+                          functions=['mutators/app_mutator.py AppMutator.run_mutations/run_mutation/to_sql', 'mutators/model_mutator.py', 'db/common.py generate_table_ops_sql', 'db/sqlite3.py SQLiteAlterTableSQLResult.to_sql', 'mock_models.py']))
     return run_check('C18', obs, tier, pre_violations=pre,
                      extra_coverage={'e3_table_query': e3},
                      assumptions=['per-op SQL builders (add_column, change_column_attrs, delete_column, change_meta_*, change_column_type) and AlterTableSQLResult are replaced by recording stand-ins: the claim is about the merge decision, not about the SQL inside a rebuild (that is C01/C02)',
